@@ -88,7 +88,7 @@ package main
 //@   modifies ChangeSet.Pulls mem:Pull
 //@   ensures len(cs.Pulls) == old(len(cs.Pulls)) + 1 && cs.Pulls[len(cs.Pulls)-1] == p
 //@   ensures forall k int :: 0 <= k && k < old(len(cs.Pulls)) ==> cs.Pulls[k] == old(cs.Pulls[k])
-//@ func computeBlockState property C05
+//@ func computeBlockState trustedframe property C05
 //@   modifies nothing
 //@ func rendezvousLess trusted pure
 //@   modifies nothing
